@@ -371,7 +371,7 @@ def _helper_cases(draw, tier):
             "M1": [[draw(st.integers(-16, 16)) / 4.0 for _ in range(m)] for _ in range(n)],
             "M2": [[draw(st.integers(-16, 16)) / 4.0 for _ in range(k)] for _ in range(m)],
             "vec": [draw(st.integers(-16, 16)) / 4.0 for _ in range(m)],
-            "tri": draw(_triangular()),
+            "tri": draw(_triangular()), "lin_dec": draw(st.sampled_from([6, 4, 3, 2])),
             "k": draw(st.integers(0, 40)), "i": draw(st.integers(0, 44)), "vexp": draw(st.sampled_from([0, 0, 0, -66, -40, 40])),
             "lin": [draw(st.integers(-64, 64)) / 8.0, draw(st.integers(1, 64)) / 8.0 * draw(st.sampled_from([1.0, 1.0, -1.0])), draw(st.integers(2, 40))]}
 
@@ -449,6 +449,12 @@ def check_helpers(case, ctx):
     ctx.check(len(ls) == num, "linspace-count", "linspace(%r, %r, %d) has %d values" % (s0, s0 + span, num, len(ls)))
     ctx.check(abs(ls[0] - s0) <= 1e-15 * (1 + abs(s0)) and abs(ls[-1] - (s0 + span)) <= 1e-14 * (1 + abs(s0 + span)), "linspace-ends", "linspace ends %r, %r" % (ls[0], ls[-1]))
     ctx.label("linspace-decreasing", span < 0)
+    if case.get("lin_dec"):
+        # with the documented rounding keyword every value is the evenly spaced value rounded to that many decimals
+        dec = case["lin_dec"]
+        lsd = linalg.linspace(s0, s0 + span, num, decimals=dec)
+        ctx.check(len(lsd) == num and all(abs(F(x) - (F(s0) + F(span) * F(j, num - 1))) <= F(1, 2 * 10 ** dec) + F(1, 10 ** 13) * (1 + abs(F(s0)) + abs(F(span))) for j, x in enumerate(lsd)),
+                  "linspace-decimals", "linspace(%r, %r, %d, decimals=%d) = %r" % (s0, s0 + span, num, dec, lsd))
     ctx.check(all(abs(F(x) - (F(s0) + F(span) * F(j, num - 1))) <= F(1, 10 ** 13) * (1 + abs(F(s0)) + abs(F(span))) for j, x in enumerate(ls)), "linspace-steps", "linspace(%r, %r, %d) = %r" % (s0, s0 + span, num, ls))
 
 
